@@ -67,27 +67,42 @@ func c17(c *Check) {
 				if !ok {
 					continue
 				}
-				mc, ok := stripConv(mu.Value).(*ssa.MakeClosure)
-				if !ok {
-					continue
+				// the registered handler: a bound-method closure, or — when the name → handler choice sits in a helper —
+				// a merge of such closures, one per incoming edge, each under the conditions of its edge
+				type regn struct {
+					mc    *ssa.MakeClosure
+					conds map[string]bool
 				}
-				h := c.P.unwrap(mc.Fn.(*ssa.Function))
-				var ev string
-				for cond := range fa.PathCondStrings(b) {
-					if strings.Contains(cond, `== "`) && strings.Contains(cond, "next range") {
-						ev = cond[strings.Index(cond, `== "`)+4:]
-						ev = strings.TrimSuffix(strings.TrimSuffix(ev, ")"), `"`)
+				var regs []regn
+				if mc, ok := stripConv(mu.Value).(*ssa.MakeClosure); ok {
+					regs = append(regs, regn{mc, fa.PathCondStrings(b)})
+				} else if ph, ok := stripConv(mu.Value).(*ssa.Phi); ok {
+					for i, e := range ph.Edges {
+						if mc, ok := stripConv(e).(*ssa.MakeClosure); ok && i < len(ph.Block().Preds) {
+							regs = append(regs, regn{mc, fa.PathCondStrings(ph.Block().Preds[i])})
+						}
 					}
 				}
-				nreg++
-				// the handler parses the same event name
-				parsed := ""
-				for _, cs := range c.Calls(h, "syscontracts.ParseLog") {
-					parsed = strings.Trim(c.P.ArgExprs(cs)[3].String(), `"`)
+				for _, rg := range regs {
+					mc := rg.mc
+					h := c.P.unwrap(mc.Fn.(*ssa.Function))
+					var ev string
+					for cond := range rg.conds {
+						if strings.Contains(cond, `== "`) && strings.Contains(cond, "next range") {
+							ev = cond[strings.Index(cond, `== "`)+4:]
+							ev = strings.TrimSuffix(strings.TrimSuffix(ev, ")"), `"`)
+						}
+					}
+					nreg++
+					// the handler parses the same event name
+					parsed := ""
+					for _, cs := range c.Calls(h, "syscontracts.ParseLog") {
+						parsed = strings.Trim(c.P.ArgExprs(cs)[3].String(), `"`)
+					}
+					c.Req(ev != "" && parsed == ev, "C17/registration", fmt.Sprintf("%s: event %q → %s", ad.pkg, ev, h.Name()), mu.Pos(), "parses "+parsed, fmt.Sprintf("handler %s is registered for event %q but parses event %q", h.Name(), ev, parsed))
+					ex := c.Calls(h, "adapter/common.ExecuteMsg")
+					c.Req(len(ex) == 1, "C17/registration", fmt.Sprintf("%s: %s executes once", ad.pkg, h.Name()), h.Pos(), "", fmt.Sprintf("%d ExecuteMsg calls in %s", len(ex), h.Name()))
 				}
-				c.Req(ev != "" && parsed == ev, "C17/registration", fmt.Sprintf("%s: event %q → %s", ad.pkg, ev, h.Name()), mu.Pos(), "parses "+parsed, fmt.Sprintf("handler %s is registered for event %q but parses event %q", h.Name(), ev, parsed))
-				ex := c.Calls(h, "adapter/common.ExecuteMsg")
-				c.Req(len(ex) == 1, "C17/registration", fmt.Sprintf("%s: %s executes once", ad.pkg, h.Name()), h.Pos(), "", fmt.Sprintf("%d ExecuteMsg calls in %s", len(ex), h.Name()))
 			}
 		}
 		c.Req(nreg >= 2, "C17/registration", ad.pkg+" registrations found", ctor.Pos(), fmt.Sprint(nreg), "no handler registrations found in NewHookAdapter")
